@@ -247,6 +247,95 @@ Proof.
     + intros [[H|[H|[H|[H|[H|[H|[]]]]]]] Hn]; subst q; first [tauto | contradiction].
 Qed.
 
+(* ================================================================================================
+   The same over RAW DATAGRAMS (proofs/ServerBytes.v): the codec model (C15) composed with the server
+   model.  processPacket drops b unless len(b) >= 2 && b[0] == 'd' (pre_check) and
+   bencode.Unmarshal(b, &msg) returns nil or ErrUnusedTrailingBytes; `decoded b` is the message it
+   then works with, `packet_of_bytes src b = EPacket src (len b) (decoded b)`.
+   NB: `String` is imported above, so `length` on lists is written `List.length` from here on.
+   ================================================================================================ *)
+From Dht Require Import Krpc ServerInv ServerInv2 ServerExamples ServerBytes.
+
+Section C08Bytes.
+  Variable Store : Type.
+  Variable w_put : Store -> witem -> Z -> Store * put_result.
+  Variable w_get : Store -> bytes -> Z -> Store * get_result.
+  Variable sha1 : bytes -> bytes.
+  Variable id_secure : N -> bytes -> bool.
+  Variable cfg : config.
+
+  Notation sstate := (sstate Store).
+  Notation step := (step Store w_put w_get sha1 id_secure cfg).
+  Notation SR := (SR Store).
+
+  (* what `decoded` is, in terms of the codec model's decoder *)
+  Theorem C08_decoded_spec b :
+    (forall m, decoded b = Some m <->
+       pre_check b = true /\ (decode_msg_fixed b = DOk m \/ exists n, decode_msg_fixed b = DOkTrailing m n)) /\
+    (decoded b = None <-> pre_check b = false \/ decode_msg_fixed b = DReject).
+  Proof. exact (conj (decoded_some_iff b) (decoded_none_iff b)). Qed.
+
+  (* for EVERY byte string: whatever is sent goes to the source of the datagram, answers a message
+     that did decode from these bytes and was a query, echoes its transaction id; at most one
+     datagram is sent *)
+  Theorem C08_bytes (s : sstate) src (b : bytes) ch s' out :
+    step s (packet_of_bytes src b) ch = SR s' out ->
+    (forall d rm k, In (ESend d rm k) out ->
+       d = src /\ exists m, decoded b = Some m /\ m_y m = s_q /\ m_t rm = m_t m) /\
+    (List.length (sends out) <= 1)%nat.
+  Proof. exact (ServerBytes.C08_bytes Store w_put w_get sha1 id_secure cfg s src b ch s' out). Qed.
+
+  (* what fails the pre-check or the decoder has no effect at all: same state, no output ... *)
+  Theorem C08_bytes_silent_on_undecodable (s : sstate) src (b : bytes) ch s' out :
+    pre_check b = false \/ decode_msg_fixed b = DReject ->
+    step s (packet_of_bytes src b) ch = SR s' out -> s' = s /\ out = [].
+  Proof. exact (ServerBytes.C08_bytes_silent_on_undecodable Store w_put w_get sha1 id_secure cfg s src b ch s' out). Qed.
+
+  (* ... and that is the only outcome, for every choice *)
+  Theorem C08_bytes_undecodable_total (s : sstate) src (b : bytes) ch :
+    pre_check b = false \/ decode_msg_fixed b = DReject -> step s (packet_of_bytes src b) ch = SR s [].
+  Proof. exact (ServerBytes.C08_bytes_undecodable_total Store w_put w_get sha1 id_secure cfg s src b ch). Qed.
+End C08Bytes.
+
+(* ---- concrete datagrams, computed by the kernel (parameters and state s0 of ServerExamples.v) ---- *)
+Definition C08_src : addr := mkAddr ip4 99.
+Definition C08_dg_announce : bytes := ascii_bytes "d1:q13:announce_peer1:t2:aa1:y1:qe".
+Definition C08_dg_ping_trailing : bytes := ascii_bytes "d1:q4:ping1:t2:aa1:y1:qeXYZ".
+Definition C08_dg_list : bytes := ascii_bytes "li1ee".
+Definition C08_dg_truncated : bytes := ascii_bytes "d1:q4:ping1:t2:aa1:y1:q".
+(* a response-typed message decodes but is not answered *)
+Definition C08_dg_response : bytes := ascii_bytes "d1:rd2:id20:abcdefghij0123456789e1:t2:aa1:y1:re".
+
+Definition C08_bytes_sends (b : bytes) : option (list effect) :=
+  match step0 s0 (packet_of_bytes C08_src b) no_choice with
+  | Server.SR _ _ out => Some (sends out)
+  | _ => None
+  end.
+
+(* the 34-byte announce_peer without an `a` dictionary decodes and is answered with error 203 *)
+Example C08_bytes_announce_203 :
+  List.length C08_dg_announce = 34%nat /\
+  (exists m, decoded C08_dg_announce = Some m /\ m_y m = s_q /\ m_t m = ascii_bytes "aa") /\
+  C08_bytes_sends C08_dg_announce = Some [ESend C08_src (error_msg (ascii_bytes "aa") err_missing_args) SError] /\
+  e_code err_missing_args = 203%Z.
+Proof. vm_compute. repeat split. eexists. repeat split. Qed.
+
+(* a ping followed by unused trailing bytes is used and answered, t echoed *)
+Example C08_bytes_trailing_answered :
+  (exists m, decode_msg_fixed C08_dg_ping_trailing = DOkTrailing m 3) /\
+  C08_bytes_sends C08_dg_ping_trailing
+  = Some [ESend C08_src (reply_msg cfg0 C08_src (ascii_bytes "aa") empty_return) SReply].
+Proof. vm_compute. split; [eexists|]; reflexivity. Qed.
+
+(* a list, a truncated message: dropped, state unchanged; a response: decoded, not answered *)
+Example C08_bytes_dropped :
+  pre_check C08_dg_list = false /\ decode_msg_fixed C08_dg_truncated = DReject /\
+  step0 s0 (packet_of_bytes C08_src C08_dg_list) no_choice = Server.SR unit s0 [] /\
+  step0 s0 (packet_of_bytes C08_src C08_dg_truncated) no_choice = Server.SR unit s0 [] /\
+  (exists m, decoded C08_dg_response = Some m /\ m_y m = s_r) /\
+  C08_bytes_sends C08_dg_response = Some [].
+Proof. vm_compute. repeat split. eexists. repeat split. Qed.
+
 Print Assumptions C08_dest_and_t.
 Print Assumptions C08_at_most_one.
 Print Assumptions C08_silent_on_non_query.
@@ -262,3 +351,10 @@ Print Assumptions C08_passive_or_veto_silent.
 Print Assumptions C08_only_queries_elsewhere.
 Print Assumptions C08_kinds.
 Print Assumptions C08_histories.
+Print Assumptions C08_decoded_spec.
+Print Assumptions C08_bytes.
+Print Assumptions C08_bytes_silent_on_undecodable.
+Print Assumptions C08_bytes_undecodable_total.
+Print Assumptions C08_bytes_announce_203.
+Print Assumptions C08_bytes_trailing_answered.
+Print Assumptions C08_bytes_dropped.
